@@ -15,6 +15,7 @@ import (
 var (
 	sA = seriesDef{id: 1, tags: map[int]int{1: 1, 2: 1}}
 	sB = seriesDef{id: 2, tags: map[int]int{1: 2, 2: 1}}
+	sN = seriesDef{id: 3, tags: map[int]int{2: 1}} // no k1
 )
 
 func allCond() cond { return cond{kind: "all"} }
@@ -234,14 +235,47 @@ func runFixed(c *core.Ctx, i int) {
 			r.c.Op(fmt.Sprintf("x %d %d | %s | %s", g.n, sec, x.proto(), g.store.proto()), g.items[0].render(want))
 			switch {
 			case g.items[0].status == "crash" && want.status == "crash":
+				// repaired by fix ad91846 (nil guard in RateCall): the panic is a regression now
 				r.c.Branch("witness/reproduced:expr-rate-of-valueless-operands-panics")
-				r.c.Fail("expr-rate-of-valueless-operands-panics", fmt.Sprintf("select %s over a group whose %s array holds no value in the query range: %s", x.sql(), schema[2].name, g.items[0].panic))
+				r.c.Fail("regressed:expr-rate-of-valueless-operands-panics", fmt.Sprintf("select %s over a group whose %s array holds no value in the query range: %s", x.sql(), schema[2].name, g.items[0].panic))
 			case g.items[0].status == "empty" && want.status == "crash":
 				r.c.Branch("witness/repaired-passes:expr-rate-of-valueless-operands-panics")
 			default:
 				r.c.Fail("expr-ne-reference", fmt.Sprintf("rate witness: store {%s}: expression gives %q, point by point %q", g.store.proto(), g.items[0].render(want), want.render()))
 			}
 		}
+	case 16, 17, 18:
+		// a source that holds only series without the group-by tag key (needs an index rebuild between
+		// the tagged and the untagged writes): its data load returns early; the other sources' data
+		// must still be answered (dataLoad.Execute: the pending-load counter is decremented on
+		// every return path)
+		r.oracleOn = true
+		qa := qSpec{qs: 0, qe: 2*spf - 1, ratio: 1, cond: allCond(), items: []qItem{{1, fnSum}}}
+		qg := qa
+		qg.by = []int{1}
+		switch i {
+		case 16: // the second family's memory database holds only the untagged series
+			r.writeRow(0, sA, 1, 0, w1(1, 1), nil, false)
+			r.writeRow(0, sB, 2, 0, w1(1, 2), nil, false)
+			r.reopen()
+			r.writeRow(1, sN, 2, 0, w1(1, 4), nil, false)
+		case 17: // a file holds only the untagged series, the tagged ones are in memory
+			r.writeRow(0, sN, 2, 0, w1(1, 4), nil, false)
+			r.reopen()
+			r.writeRow(0, sA, 1, 0, w1(1, 1), nil, false)
+			r.writeRow(0, sB, 3, 0, w1(1, 2), nil, false)
+		case 18: // files hold the tagged series, the memory database only the untagged one
+			r.writeRow(0, sA, 1, 0, w1(1, 1), nil, false)
+			r.writeRow(0, sB, 3, 0, w1(1, 2), nil, false)
+			r.reopen()
+			r.writeRow(0, sN, 2, 0, w1(1, 4), nil, false)
+		}
+		r.query(qg)
+		r.query(qa)
+		qg2 := qg
+		qg2.by = []int{1, 2}
+		r.query(qg2)
+		r.c.Branch("fixed/source-with-only-untagged-series")
 	}
 }
 
